@@ -109,6 +109,11 @@ def readConsistent {σ α : Type} (p : Prog σ α) (dev : Nat → DevState σ) :
     let after := (dev r.2).gen
     if before = after then some (r.1, r.2 + 1) else readConsistent p dev fuel (r.2 + 1)
 
+/-- What `read_consistent` observes through a *legacy* MMIO transport: the legacy register layout
+has no ConfigGeneration register and `MmioTransport::read_config_generation` returns the constant 0
+without touching the device, whatever the device does. -/
+def legacyView {σ : Type} (dev : Nat → DevState σ) : Nat → DevState σ := fun t => ⟨(dev t).cfg, 0⟩
+
 /-! ### the drivers' multi-field reads as closures over a byte-array configuration -/
 
 inductive Err | tooSmall | missing | invalidParam
